@@ -87,6 +87,30 @@ CHECKS = {
    design_ref='DESIGN.md §5 C03',
    note=COMMON_NOTE + "The error branches of BIP32 (I_L >= n, child key 0 / point at infinity) are in the executable model but outside the algebraic theorems; "
         "they have probability < 2^-127 and are not reachable by search."),
+ 'C04': dict(
+   technique='Lean 4 theorems (public-key decoding sound for any sqrt routine; compressed/uncompressed describe one point under p prime; scalar range; network table) + reference secp256k1/hash160/address encoders run against Key and Address',
+   text=("Proved in Lean: whatever decodePubWith accepts is on the curve with coordinates below p and the stated parity - unconditionally, for any "
+         "square-root routine (the candidate is validated); the uncompressed encoding of an on-curve point decodes to it; under 'p prime' and a "
+         "root-finding hypothesis the compressed encoding decodes to the same point (both square roots are y and p-y, of opposite parity), i.e. the "
+         "two forms describe one point; a secret is accepted iff it is in [1, n-1]; table theorems pin the generated version bytes / HRPs of bitcoin, "
+         "testnet, litecoin, dogecoin and P2PKH != P2SH versions in every network. The decoding logic that the theorems are about is the code the "
+         "driver runs. Scalars (0, 1, n-1, n, n+1, 2^256-1, sparse, leading zeros, random; as int/bytes/hex/HDKey), public encodings (every small x on "
+         "and off the curve, x >= p, wrong y, wrong prefix, wrong length) and addresses for every network x encoding x script type (Key.address in "
+         "shuffled call orders on one object, Address(), HDKey per witness type) are compared with the model. Found and fixed: F09; listed: F09b."),
+   design_ref='DESIGN.md §5 C04',
+   note=COMMON_NOTE + "Point multiplication, SHA-256, RIPEMD-160 are reference code (vectors + agreement with the library), not verified; 'p prime' is a hypothesis. "
+        "p2tr: only the Bech32m encoding of a given 32-byte output key is claimed."),
+ 'C12': dict(
+   technique='Lean 4 theorems (WIF and extended-key export/import round trips over Base58Check; prefix-table disjointness) + export/import correspondence over every network x witness type x multisig x private/public',
+   text=("Proved in Lean: wifDec (wifEnc ver secret compressed) = (ver, secret, compressed) for every secret below 2^256 (leading zero bytes included) "
+         "with compression decided by payload length; xkeyDec (xkeyEnc k) = k for all six fields; with the last-byte rule of the pinned tree an "
+         "uncompressed WIF ending in 01 imports as a different key (F21 witness, for any checksum function); in the generated prefix table no version is "
+         "both private and public (decide over all pairs), the mainnet versions are the published BIP32/SLIP-132 ones, and the only mainnet ambiguity "
+         "is single/multisig under the legacy versions. The harness exports every key (forced first/last bytes, leading zeros) in every representation "
+         "and imports it back, compares WIF / extended-key strings with the Lean encoders and imported fields + metadata with the Lean decoders and "
+         "the candidate sets of the table. Found and fixed: F21 (and F06, F27 under C11)."),
+   design_ref='DESIGN.md §5 C12',
+   note=COMMON_NOTE + "hex/bytes 'secret+01' forms that start with 02/03/04 are classified public by construction (not self-describing; counted, not claimed). BIP38 export/import is covered under C15."),
 }
 
 NOT_YET = {}
